@@ -1,5 +1,6 @@
 """C03 - flattening and winding variables are exact inverses."""
 import itertools
+import warnings
 
 import numpy
 import xarray
@@ -58,6 +59,35 @@ def run(ctx):
                             for k in d.spec['kind_order']])
         tbl = to_coq([(names.code(k), int(v)) for k, v in ds.sizes.items()])
         ctx.count(f'family:{d.family}')
+        # parts of variables: one time step kept as a dimension, every second level, two copies concatenated - still
+        # variables on the grid, with an extra dimension whose length differs from the dataset's dimension of that name
+        for (vname, kind, dims) in vars_:
+            if kind is None:
+                continue
+            G = d.spec['kinds'][kind]
+            for x in [x for x in ds[vname].dims if x not in G]:
+                full = ds[vname]
+                parts = [('first step kept', full.isel({x: slice(0, 1)})), ('every second', full.isel({x: slice(None, None, 2)})),
+                         ('concatenated twice', xarray.concat([full, full], dim=x))]
+                for pname, part in parts:
+                    if part.sizes[x] == full.sizes[x]:
+                        continue
+                    with warnings.catch_warnings():
+                        warnings.simplefilter('ignore')
+                        r = attempt(ems.ravel, part)
+                        w = attempt(ems.wind, r[1], grid_kind=enums[kind]) if r[0] == 'ok' else ('err', 'ravel failed')
+                    pcase = {'dataset': d.spec['label'], 'variable': vname, 'dims': list(part.dims), 'part': pname, 'dimension': str(x),
+                             'sizes': {str(k): int(v) for k, v in part.sizes.items()}}
+                    ctx.case((d.spec['label'], vname, pname, str(x)), True)
+                    ctx.count('part_of_a_variable')
+                    want = part.transpose(*([y for y in part.dims if y not in G] + list(G)))
+                    if r[0] != 'ok':
+                        ctx.report('property', f'ravel refuses a part of a variable on the grid ({pname} along {x}): {r[1]}', pcase)
+                    elif w[0] != 'ok':
+                        ctx.report('property', f'wind after ravel of a part of a variable failed: {w[1]}', pcase)
+                    elif tuple(w[1].dims) != tuple(want.dims) or not nan_equal(w[1].values, want.values):
+                        ctx.report('property', f'ravel then wind does not reproduce a part of a variable ({pname} along {x})', pcase)
+                break
         for (vname, kind, dims) in vars_:
             base = ds[vname]
             perms = [tuple(base.dims)]
@@ -143,6 +173,13 @@ def run(ctx):
                     bad = f'ravel failed: {r[1]}'
             else:
                 rr = r[1]
+                if lin is None:
+                    # the older spelling of ravel gives the same flattened array
+                    with warnings.catch_warnings():
+                        warnings.simplefilter('ignore')
+                        ml = attempt(ems.make_linear, a)
+                    if ml[0] != 'ok' or not ml[1].identical(rr):
+                        bad = 'make_linear (the older spelling of ravel) returns something else than ravel'
                 # data of the default grid kind is wound without naming the kind (the documented default)
                 wkw = {} if enums[kind] == ems.default_grid_kind else {'grid_kind': enums[kind]}
                 if axis is not None:
